@@ -13,4 +13,4 @@ for _f in sorted(os.listdir(_D)):
 # properties that are deliberately not claimed, with the reason (kept current)
 NOT_APPLICABLE = {}
 # /repo commits that add build-tag-guarded hooks
-HOOK_COMMITS = ["a001e5fd", "3e1e5259"]
+HOOK_COMMITS = ["a001e5fd", "3e1e5259", "77df935b"]
